@@ -32,6 +32,7 @@ DECIDED = [
     "R-C04-STEP (round 5): RabbitMQ terminal operations pop and use the delivery tag of key.id_; requeue acks the failed delivery before it publishes the retry copy (same id: the copy's delivery would overwrite the tag)",
     "R-C04-GUARD / R-C04-ORDER (round 6): a refused eager retry stays the actor's failure (retry() does not nack on its own); report_to_broker is not shielded from the runner's cancel + reject",
     "R-C04-AWAITED: in the files this property is anchored in, no bare statement calls a coroutine function (the operation would never run)",
+    "R-C04-ROUTE (sweep stage two): an explicit next_retry is the retry's delay; only a missing one is replaced (zero in Message, the policy's delay for attempt k+1 in MessageDependency)",
 ]
 NOT_DECIDED = ["delivery time versus the policy value as a measured quantity", "user-supplied retry policies"]
 ASSUMPTIONS = ["attempt counting is by induction over deliveries: each delivery applies the transfer function exactly once (C02)"]
@@ -41,6 +42,9 @@ def run(ctx: Ctx) -> None:
     from .shared import every_operation_awaited
 
     every_operation_awaited(ctx, "R-C04-AWAITED")  # in the files this property is anchored in, no asynchronous operation is created and dropped
+    from .shared import retry_delay_defaults
+
+    retry_delay_defaults(ctx, "R-C04-ROUTE")  # the k-th retry's delay: the explicit one, else the policy's for k (never dropped to zero, never None)
     lt = check_ladder(ctx, "R-C04-GUARD", rows=lambda s, b, d, c: not s)
     check_ladder(ctx, "R-C04-ORDER", rows=lambda s, b, d, c: (not s and b == "lt" and (d or c)) or s)
     check_ladder_arguments(ctx, "R-C04-STEP", lt, kinds=("retry",))
